@@ -751,7 +751,17 @@ class Parser:
                 self.current = next(self.stream)
 
         except StopIteration:
-            self.current = Token('eof', '', self.current.line_start, self.current.lineno, self.current.colno + self.current.bytespan[1] - self.current.bytespan[0], (0, 0), None)
+            last = self.current
+            line_start, lineno = last.line_start, last.lineno
+            colno = last.colno + last.bytespan[1] - last.bytespan[0]
+            text = self.lexer.code[last.bytespan[0]:last.bytespan[1]]
+            nl = text.rfind('\n')
+            if nl not in {-1, len(text) - 1}:
+                # the last token spans several lines: eof is on its last line
+                line_start = last.bytespan[0] + nl + 1
+                lineno += text.count('\n')
+                colno = last.bytespan[1] - line_start
+            self.current = Token('eof', '', line_start, lineno, colno, (0, 0), None)
 
     def getline(self) -> str:
         return self.lexer.getline(self.current.line_start)
